@@ -19,3 +19,12 @@ Theorem C05_pinned_hook_refuted :
   /\ omap t_id (hk_cached (hs_hook (hrun hcfg_fixed strand_history))) = Some "t2".
 Proof. exact pinned_hook_goes_stale. Qed.
 Print Assumptions C05_pinned_hook_refuted.
+
+(* ---- the safety half over all sequential histories of the observable repository (Proofs/HookProofs.v):
+   whenever the timer is started and no look-up error is pending, a wake-up is pending or armed not later than
+   the head's time — the scheduler cannot be left waiting on an idle timer while a task is due ---- *)
+From GK.Proofs Require Import HookProofs.
+Theorem C05_never_idle_with_work : forall now0 ops,
+  hops_ok now0 hs_init ops -> c07_ok (started_of ops) (hobs_of (hrun ops)) = true.
+Proof. exact hrun_c07. Qed.
+Print Assumptions C05_never_idle_with_work.
